@@ -240,6 +240,12 @@ func (p *Path) load(t types.Type, addr Value) Value {
 			}
 		}
 		if po, ok := (*a).(Poison); ok {
+			// an interface-typed cell may hold a value the engine could not compute
+			// (an option built by an uninterpreted library): it can be passed around
+			// and asked for its origin; any real use of it is still refused
+			if _, isIface := t.Underlying().(*types.Interface); isIface {
+				return po
+			}
 			panic(unsupported{"use of poisoned value: " + po.Why})
 		}
 		return copyVal(*a)
